@@ -109,12 +109,44 @@ def handle(line: str) -> str:
                 c.get_dependents(); c.get_independents(); c.get_canonic_vertices()
                 if gs and n <= 3:
                     c.get_space()
+                import itertools as _it
+                for _g in _it.islice(c.gen_generators(), 3):
+                    pass
+                [str(g) for g in c]; repr(c); [hash(g) for g in c.get()]; next(iter(c), None)
+                for g in c.get():
+                    q = g.copy()
+                    if len(q):
+                        q[0] = "Z" if str(q)[0] != "Z" else "X"     # editing a COPY of a member is read-only for the collection
                 return "done"
             guard(ro)
             a5 = guard(lambda: algebra_text(str(c.get_algebra())))
             a3 = guard(lambda: algebra_text(str(c.classify().get_algebra())))
             a4 = alg_of(gs)
             return f"first={a1} cached={a2} after-readonly-queries={a5} reclassified={a3} fresh={a4}"
+        if t[0] == "present":
+            # the same generators handed over through every constructor / argument type the API accepts, and through objects
+            # assembled by the in-place API: one algebra
+            import pollute
+            from paulie.common.pauli_string_factory import get_pauli_string, gen_k_local_generators
+            N, gs = int(t[1]), strs(t[2])
+            r = random.Random("present:" + line)
+            P = lambda x: PauliString(pauli_str=x)
+            def name(c):
+                return guard(lambda: algebra_text(str(c().get_algebra())) + "#" + ",".join(sorted(str(g) for g in c().get())))
+            L = max(len(g) for g in gs)
+            padded = [g + "I" * (L - len(g)) for g in gs]
+            views = {
+                "str-list": lambda: get_pauli_string(list(gs), n=N),
+                "padded-str-list": lambda: get_pauli_string(list(padded), n=N),
+                "object-list": lambda: get_pauli_string([P(g) for g in gs], n=N),
+                "padded-object-list": lambda: get_pauli_string([P(g) for g in padded], n=N),
+                "collection": lambda: get_pauli_string(PauliStringCollection([P(g) for g in gs]), n=N),
+                "assembled-objects": lambda: get_pauli_string([pollute.assembled_string(g, r) for g in padded], n=N),
+                "generator-function:objects": lambda: PauliStringCollection(list(gen_k_local_generators(N, [P(g) for g in padded]))),
+                "generator-function:str": lambda: PauliStringCollection(list(gen_k_local_generators(N, list(padded)))),
+                "no-n:then-classified": lambda: get_pauli_string(sorted(set(str(x) for x in get_pauli_string(list(padded), n=N).get()))),
+            }
+            return " ".join(f"{k}={name(v)}" for k, v in views.items())
     except Exception as e:
         return exc_name(e)
     return "bad-op"
